@@ -2,9 +2,11 @@ package vnet
 
 import (
 	"math/big"
+	"sort"
 	"time"
 
 	"github.com/filecoin-project/go-f3/gpbft"
+	"github.com/filecoin-project/go-f3/verifharness/vcrypto"
 	"github.com/filecoin-project/go-f3/verifharness/vgen"
 	"github.com/filecoin-project/go-f3/verifharness/vref"
 	"pgregory.net/rapid"
@@ -22,6 +24,7 @@ type GenOpts struct {
 	Unanimous      bool // all honest nodes propose the same chain
 	MaxExponent    float64
 	ForceByzIfAble bool
+	TwoFaced       bool // near-thirds table, Byzantine members run as two personalities
 }
 
 func scaledSum(table gpbft.PowerEntries, ids []gpbft.ActorID) (int64, int64) {
@@ -76,8 +79,42 @@ func GenConfig(t *rapid.T, o GenOpts) *Config {
 		spec.Entries = vref.Canonical(spec.Entries)
 		spec.Kind = "balanced"
 	}
+	if o.TwoFaced {
+		// two honest sides of (almost) one third each plus a coalition just below one third,
+		// so that side + coalition sits exactly at the strong-quorum boundary
+		k := int64(rapid.IntRange(20000, 24000).Draw(t, "thirdsK"))
+		d := int64(rapid.IntRange(1, 3).Draw(t, "thirdsD"))
+		nb := rapid.IntRange(1, 2).Draw(t, "thirdsByz")
+		ents := gpbft.PowerEntries{}
+		mk := func(id uint64, p int64) {
+			ents = append(ents, gpbft.PowerEntry{ID: gpbft.ActorID(id), Power: gpbft.StoragePower{Int: big.NewInt(p)}, PubKey: vcrypto.PubKey(id)})
+		}
+		honestSplit := rapid.IntRange(1, 2).Draw(t, "thirdsHonestSplit")
+		id := uint64(100)
+		for side := 0; side < 2; side++ {
+			for x := 0; x < honestSplit; x++ {
+				p := k / int64(honestSplit)
+				if x == 0 {
+					p += k % int64(honestSplit)
+				}
+				mk(id, p)
+				id++
+			}
+		}
+		for x := 0; x < nb; x++ {
+			p := (k - d) / int64(nb)
+			if x == 0 {
+				p += (k - d) % int64(nb)
+			}
+			mk(id+100, p)
+			id++
+		}
+		spec.Entries = vref.Canonical(ents)
+		spec.Kind = "near-thirds"
+	}
 	table := spec.Entries
 	cfg := &Config{
+		TwoFaced: o.TwoFaced,
 		NN:        "vnet",
 		First:     uint64(rapid.IntRange(0, 40).Draw(t, "first")),
 		TableKind: spec.Kind,
@@ -133,6 +170,23 @@ func GenConfig(t *rapid.T, o GenOpts) *Config {
 		}
 	}
 	cfg.Honest, cfg.Byz, cfg.Silent = ids(0), ids(1), ids(2)
+	if o.TwoFaced {
+		cfg.Honest, cfg.Byz, cfg.Silent = nil, nil, nil
+		for _, e := range table {
+			if e.ID >= 200 {
+				cfg.Byz = append(cfg.Byz, e.ID)
+			} else {
+				cfg.Honest = append(cfg.Honest, e.ID)
+			}
+		}
+		sort.Slice(cfg.Honest, func(i, j int) bool { return cfg.Honest[i] < cfg.Honest[j] })
+		if !rolesOK(table, cfg.Honest, cfg.Byz, false) {
+			// cannot happen by construction; fall back to an all-honest world
+			cfg.Honest = append(cfg.Honest, cfg.Byz...)
+			cfg.Byz = nil
+			cfg.TwoFaced = false
+		}
+	}
 	// instances
 	ninst := rapid.IntRange(1, o.MaxInstances).Draw(t, "ninst")
 	cur := table
@@ -175,6 +229,20 @@ func GenConfig(t *rapid.T, o GenOpts) *Config {
 				}
 			}
 			ic.Paths[id] = p
+		}
+		if o.TwoFaced {
+			// each side of the partition prefers its own branch
+			for i, id := range cfg.Honest {
+				side := 0
+				if i >= len(cfg.Honest)/2 {
+					side = 1
+				}
+				p := []int{side}
+				for x := 1; x < L; x++ {
+					p = append(p, 0)
+				}
+				ic.Paths[id] = p
+			}
 		}
 		cfg.Instances = append(cfg.Instances, ic)
 	}
